@@ -155,9 +155,11 @@ def main(rep, tier, only):
         algorithm::fold, std::accumulate): connection k's function is called with the caller's arguments, in list order, once each;
         a combining signal calls combiner(state so far, result of connection k) and returns the last state"""
         u_ = fn["_unit"]
-        cfg = sx.Config(inline_prefixes=("fcppt::algorithm::", "fcppt::range::", "fcppt::signal::detail::"), loop_bound=2, lvalues=True, iter_positions=True)
+        cfg = sx.Config(inline_prefixes=("fcppt::algorithm::", "fcppt::range::", "fcppt::signal::detail::"), loop_bound=2, lvalues=True, iter_positions=True,
+                        iter_classes=("fcppt::iterator::base::",))
         try:
-            ps = sx.Interp(db, cfg).paths(fn, this=("sym", "this"), limit=40)
+            # an explicit loop with the list's iterators is read as the range-for it stands for (positions -> elements)
+            ps = [sx.positions_as_elements(p_) for p_ in sx.Interp(db, cfg).paths(fn, this=("sym", "this"), limit=40)]
         except sx.Unsupported as e:
             rep.broken("C11 SIG-ORDER %s: %s" % (F.describe(fn)[:80], e))
             return "broken"
